@@ -165,12 +165,14 @@ def opEnc (args : List String) (impl : String) : Verdict :=
                   let hit : Bool := match encDeps ⟨d.length, bs⟩ kind ranges with
                     | none => false
                     | some (dd, od) =>
+                      -- a dependency is hit iff the byte actually differs after ALL listed corruptions
+                      -- (the same position may be listed twice and cancel out)
                       (cor.splitOn ",").any fun c =>
                         let which := c.take 1 |>.toString
                         match ((c.drop 1).toString.splitOn "^").mapM (·.toNat?) with
-                        | some [pos, x] =>
-                          x % 256 != 0 && (if which == "d" then pos < d.length && dd.any fun (a, e) => a ≤ pos && pos < e
-                           else (kind != .empty) && od.any fun (a, e) => a ≤ pos && pos < e)
+                        | some [pos, _] =>
+                          (if which == "d" then pos < d.length && d'[pos]? != d[pos]? && dd.any fun (a, e) => a ≤ pos && pos < e
+                           else (kind != .empty) && ob'[pos]? != st0.data[pos]? && od.any fun (a, e) => a ≤ pos && pos < e)
                         | _ => false
                   let cutHit : Bool := match truncAt, encDeps ⟨d.length, bs⟩ kind ranges with
                     | some len, some (dd, _) => dd.any fun (_, e) => e > len
